@@ -629,6 +629,10 @@ class Q(_Fraction):
             return _Fraction(o)
         return o
 
+    def __round__(self, ndigits=None):
+        r = _Fraction.__round__(self, ndigits)
+        return r if ndigits is None else Q(r)
+
     def __add__(self, o):
         return Q(_Fraction.__add__(self, Q._x(o)))
 
